@@ -1,13 +1,26 @@
-(* C08: hop_count_increase / _exceeded / _get on every (limit, count), against the compiled crate's complete table *)
+(* C08: Bundle::update_extensions on every hop count block (limit, count), against the compiled crate's complete table *)
 From Coq Require Import Strings.String Strings.Ascii.
-From BP7 Require Import Base.Prelude Gen.Consts Gen.Tbl_HOP Proofs.TieBase Model.Types Model.Validate Model.Ops Model.Api Model.Hex.
+From BP7 Require Import Base.Prelude Gen.Consts Gen.Tbl_HOP Proofs.TieBase Model.Types Model.Validate Model.Ops Model.Hex.
 
+(* HOP: row l*256+k = Bundle::update_extensions (node dtn://h/, residence 0, clock 2000-01-01 + 2 s) on the bundle [hop count (l,k) #2;
+   payload #1] with creation time 1000 and a one-hour lifetime: the returned bool; when true the count afterwards; when false only
+   whether the count went down (`ww`), which is all the property says about that case *)
+Definition hop_bundle (l k : N) : bundle :=
+  mkbundle (mkprimary 7 0 CrcNo (Dtn 1 [x2f; x2f; x64; x2f]) (Dtn 1 [x2f; x2f; x73; x2f]) eid_none 1000 0 3600000 0 0)
+           [mkcanonical HOP_COUNT_BLOCK 2 0 CrcNo (HopCount l k); mkcanonical 1 1 0 CrcNo (Data [x78])].
+Definition count_of (b : bundle) : option N :=
+  match find (fun c => c_type c =? HOP_COUNT_BLOCK) (b_canonicals b) with
+  | Some c => match c_data c with HopCount _ k2 => Some k2 | _ => None end
+  | None => None
+  end.
 Definition hop_answer (l k : N) : list byte :=
-  let c := mkcanonical HOP_COUNT_BLOCK 2 0 CrcNo (HopCount l k) in
-  let '(inc, c') := hop_count_increase c in
-  match hop_count_get c' with
-  | Some (l2, k2) => if l2 =? l then [ch inc; ch (hop_count_exceeded c')] ++ hex2 k2 else []
-  | None => []
+  match update_extensions Checked 946684802000 (Dtn 1 [x2f; x2f; x68; x2f]) 0 (hop_bundle l k) with
+  | Ok (ret, b') =>
+    match count_of b' with
+    | Some k2 => if ret then x31 :: hex2 k2 else if k2 <? k then [x30; x77; x77] else [x30; x2d; x2d]
+    | None => []
+    end
+  | _ => []
   end.
 Definition hop_row (i : N) (r : list byte) : bool := bytes_eqb r (hop_answer (i / 256) (i mod 256)).
 
